@@ -347,6 +347,20 @@ func (k *KDC) errReply(code int32, req *rk.KDCReq, edata []byte, etext string) [
 	return e.EncBytes()
 }
 
+// HintsEData returns the e-data (METHOD-DATA) the KDC would attach to a pre-authentication error for
+// the client of the request: what a forger who has watched one honest exchange can send as well.
+func (k *KDC) HintsEData(raw []byte) []byte {
+	req, err := rk.DecKDCReq(raw)
+	if err != nil || req.CName == nil {
+		return nil
+	}
+	cp := k.DB[req.CName.String()]
+	if cp == nil {
+		return nil
+	}
+	return rk.EncPADataSeq(k.hintsFor(cp, req))
+}
+
 // ErrorReply builds a KRB-ERROR with an arbitrary code (used by fault behaviours).
 func (k *KDC) ErrorReply(code int32, raw []byte, edata []byte) []byte {
 	req, _ := rk.DecKDCReq(raw)
